@@ -18,6 +18,7 @@ import TlshVerif.DriverOps
 import TlshVerif.DriverCodec
 import TlshVerif.DriverCompare
 import TlshVerif.DriverLength
+import TlshVerif.DriverEasy
 
 open TlshVerif
 
@@ -47,7 +48,7 @@ partial def loop (h : IO.FS.Stream) (ctx : Driver.Ctx) (c : Counts) (maxPrint : 
       loop h ctx { c with unknown := c.unknown + 1 } maxPrint
     | some (lhs, observed) =>
       let toks := lhs.splitOn " "
-      match (Driver.eval ctx toks <|> Driver.evalCodec ctx toks <|> Driver.evalCompare ctx toks <|> Driver.evalLength ctx toks) with
+      match (Driver.eval ctx toks <|> Driver.evalCodec ctx toks <|> Driver.evalCompare ctx toks <|> Driver.evalLength ctx toks <|> Driver.evalEasy ctx toks) with
       | none =>
         IO.println s!"UNKNOWN {c.lines} | {line.take 200}"
         loop h ctx { c with unknown := c.unknown + 1 } maxPrint
